@@ -1185,8 +1185,10 @@ def _patch_engine():
 
     def sf_old(self, node, st, m):
         if m.old is None:
+            if m.binds.get("$in_old") is not None:
+                return self.pev(node.args[0], st, m)       # old(old(e)) == old(e)
             raise ContractError("old() outside a postcondition")
-        return self.pev(node.args[0], m.old, Mode(True, None, None, m.result, m.binds, m.under))
+        return self.pev(node.args[0], m.old, Mode(True, None, None, m.result, dict(m.binds, **{"$in_old": SV("py", py=True)}), m.under))
     E.sf_old = sf_old
 
     def sf_entry(self, node, st, m):
@@ -2617,7 +2619,8 @@ def _patch_calls():
                     ast.fix_missing_locations(recv_node)
                 return self.ev_contract_call(fnc, recv_node, call, st, ctx, k)
             if tgt == "noop":
-                return self.ev_list([a for a in node.args], st, ctx, lambda svs, st2: k(NONE, st2))
+                # logging / event hooks: arguments are not evaluated (assumed free of side effects on the modelled state)
+                return k(NONE, st)
             if tgt.startswith("havoc:"):
                 # unknown side-effect-free-on-modelled-state call returning an unconstrained value of the given type
                 return self.ev_list(node.args, st, ctx, lambda svs, st2: k(self.fresh_sv("r", tgt[6:]), st2))
